@@ -15,6 +15,9 @@ Lines:
   real socket pairs; both peers send and half-close (A first / B first), or B
   keeps its side open and the context is cancelled once everything arrived.
   Answer: `ab=<B received>/<B saw EOF> ba=<A received>/<A saw EOF> closed=…/… aud=<first>/<second>`.
+* `ctl <events>` — `controller.run` across loop generations (see `parseCtlEvents`).
+  Answer: for every generation `g<i> c<k>=… snaps=…`, then `end=` the counters
+  of the current `State` after all writes in flight have returned.
 * `fwd <events>` — the controller's forwarding loop; events `o` (open), `of`
   (destination open fails), `s` (source open fails), `snap`, `<k>.<event>`.
   Answer: `c<k>=<d0 delivered>/<cw>/<d1 delivered>/<cw>/<closed first>/<closed second>`
@@ -75,8 +78,64 @@ def sockScript (mode : String) (pa pb : List UInt8) : Option (List Event) :=
   | "cancel" => some (ca ++ [.eof true] ++ cb ++ [.cancel])
   | _ => none
 
+/-- `k.d:hex` — a destination write in flight at a loop teardown. -/
+def parseInflight (s : String) : Option (Nat × Bool × List UInt8) :=
+  match s.splitOn ":" with
+  | [kd, h] =>
+    match kd.splitOn "." with
+    | [k, d] => do
+      let d ← match d with | "0" => some false | "1" => some true | _ => none
+      pure (← k.toNat?, d, ← decHex h)
+    | _ => none
+  | _ => none
+
+/-- Events of a `ctl` line: the loop events `o`, `snap`, `<k>.<event>`; the
+boundaries `R[/k.d:hex…]` (endpoint failure + reconnect) and `P[/k.d:hex…]`
+(pause + resume), each with the destination writes in flight at the teardown;
+`rel` (the writes in flight return). `s` and `of` are not allowed (a failing
+`Open` is itself a boundary), and `controller.run` reconnects without delay
+only once per run, so at most one `R` may follow a `P` (or the start). -/
+def parseCtlEvents (s : String) : Option (List CtlEvent) :=
+  if s == "-" then some [] else do
+    let toks := s.splitOn ","
+    let rec go (ts : List String) (rSeen : Bool) (acc : List CtlEvent) : Option (List CtlEvent) :=
+      match ts with
+      | [] => some acc.reverse
+      | t :: rest =>
+        if t == "rel" then go rest rSeen (.release :: acc)
+        else if t == "s" || t == "of" then none
+        else if t.startsWith "R" || t.startsWith "P" then
+          match t.splitOn "/" with
+          | kind :: ws =>
+            if kind != "R" && kind != "P" then none
+            else if kind == "R" && rSeen then none
+            else
+              match ws.mapM parseInflight with
+              | some l => go rest (kind == "R") (.restart l :: acc)
+              | none => none
+          | [] => none
+        else
+          match parseLoopEvent t with
+          | some e => go rest rSeen (.loop e :: acc)
+          | none => none
+    go toks false []
+
+def showLoop (g : Nat) (l : Loop) : String :=
+  let cs := (List.range l.conns.length).zip l.conns |>.map fun (k, c) =>
+    s!"c{k}={encHex c.d0.delivered}/{c.d0.closeWrites}/{encHex c.d1.delivered}/{c.d1.closeWrites}/{c.closedFirst}/{c.closedSecond}"
+  let snaps := if l.snaps.isEmpty then "-" else ";".intercalate (l.snaps.map showCounters)
+  " ".intercalate ([s!"g{g}"] ++ cs ++ [s!"snaps={snaps}"])
+
 def handle (line : String) : String :=
   match fields line with
+  | ["ctl", es] =>
+    match parseCtlEvents es with
+    | some es =>
+      let c := Ctl.run es
+      let gens := c.past.reverse ++ [c.cur]
+      let parts := (List.range gens.length).zip gens |>.map fun (g, l) => showLoop g l
+      " ".intercalate (parts ++ [s!"end={showCounters c.cur.counters}"])
+    | none => "bad-op"
   | ["sock", _kind, mode, a, b] =>
     match decHex a, decHex b with
     | some pa, some pb =>
